@@ -23,7 +23,7 @@ TIERS = {"C12": (1600, 160, 50000, 1200)}
 PROBES = {"C12": ["fit_input_checked", "apply_input_checked", "twin_compared", "sibling_compared",
                   "parallel_fit_tasks", "parallel_apply_tasks", "interleave_schedule",
                   "pickle_midway", "nested_series_cells", "nested_array_cells", "numpy3d_input",
-                  "dataframe_series_input", "int_index_input", "global_rng_touched",
+                  "dataframe_series_input", "int_index_input",
                   "triggering_condition_present"]}
 FAULT_KINDS = {"C12": ["schedule_ooo", "schedule_interleave", "pickle_roundtrip", "repeat_call"]}
 RULE = {"C12": (
